@@ -9,6 +9,21 @@ from beziers.utils import quadraticRoots
 from beziers.utils.arclengthmixin import ArcLengthMixin
 
 
+def _polishRoots(roots, a, b, c, d):
+    """A few Newton steps on d t^3 + a t^2 + b t + c for each approximate
+    root; returns the sorted roots that lie in [0, 1]."""
+    polished = []
+    for t in roots:
+        for _ in range(4):
+            ft = ((d * t + a) * t + b) * t + c
+            dft = (3 * d * t + 2 * a) * t + b
+            if dft == 0:
+                break
+            t = t - ft / dft
+        polished.append(t)
+    return sorted([x for x in polished if x >= 0 and x <= 1])
+
+
 class CubicBezier(ArcLengthMixin, Segment):
     """A representation of a cubic bezier curve."""
 
@@ -139,8 +154,14 @@ class CubicBezier(ArcLengthMixin, Segment):
         b = -3 * pa + 3 * pb
         c = pa
         d = -pa + 3 * pb - 3 * pc + pd
-        if d == 0:
-            return []
+        if abs(d) <= 1e-4 * max(abs(a), abs(b), abs(c)):
+            # Not (usefully) a cubic in this dimension: solve the quadratic
+            # a t^2 + b t + c instead; when d is merely tiny, let Newton's
+            # method pull the quadratic's roots onto the cubic's.
+            if d == 0:
+                return sorted(quadraticRoots(a, b, c))
+            return _polishRoots(quadraticRoots(a, b, c, limited=False), a, b, c, d)
+        a0, b0, c0 = a, b, c
         a = a / d
         b = b / d
         c = c / d
@@ -162,9 +183,7 @@ class CubicBezier(ArcLengthMixin, Segment):
             root2 = t1 * math.cos((phi + 2 * math.pi) / 3) - a / 3
             root3 = t1 * math.cos((phi + 4 * math.pi) / 3) - a / 3
             roots = [root1, root2, root3]
-            return sorted([x for x in roots if x >= 0 and x <= 1])
-
-        if discriminant == 0:
+        elif discriminant == 0:
             if q2 < 0:
                 u1 = cuberoot(-q2)
             else:
@@ -172,13 +191,15 @@ class CubicBezier(ArcLengthMixin, Segment):
             root1 = 2 * u1 - a / 3.0
             root2 = -u1 - a / 3.0
             roots = [root1, root2]
-            return sorted([x for x in roots if x >= 0 and x <= 1])
-
-        sd = math.sqrt(discriminant)
-        u1 = cuberoot(sd - q2)
-        v1 = cuberoot(sd + q2)
-        root1 = u1 - v1 - a / 3
-        return [x for x in [root1] if x >= 0 and x <= 1]
+        else:
+            sd = math.sqrt(discriminant)
+            u1 = cuberoot(sd - q2)
+            v1 = cuberoot(sd + q2)
+            root1 = u1 - v1 - a / 3
+            roots = [root1]
+        # The closed forms lose accuracy when d is small compared to the other
+        # coefficients: polish on the polynomial as given.
+        return _polishRoots(roots, a0, b0, c0, d)
 
     def _findDRoots(self) -> List[float]:
         d = self.derivative()
